@@ -24,6 +24,11 @@ exactly with the winner.  A pooled fan-out of >= 4 tasks that produced < 3 disti
 inconclusive.  generate_mock_data: same seed twice -> bit-identical (independent of the global RNG and of calls in
 between), different seeds -> different data.
 
+KK cnls with the AUTOMATIC num_RC range is the one consumer loop in the library that stops early on the results received
+so far (exploratory._use_cnls; the matrix-inversion / least-squares routes use a plain map without early stopping): those
+cases compare the list of num_RC values tested and every returned result, and their schedules ("head") delay exactly the
+first submitted tasks so that later results are ready first.
+
 Latitude (things the statement leaves open, accepted as they are):
  - an input on which the *serial reference itself* raises is not a C17 matter (C18's); it only becomes one when another
    schedule / process count does not raise the same exception type;
